@@ -17,6 +17,13 @@ SQRT = z3.Function("sqrt_", R, R)
 EXP = z3.Function("exp_", R, R)
 LOG = z3.Function("log_", R, R)
 
+SIN = z3.Function("sin_", R, R)
+COS = z3.Function("cos_", R, R)
+TAN = z3.Function("tan_", R, R)
+ASIN = z3.Function("asin_", R, R)
+ACOS = z3.Function("acos_", R, R)
+ATAN = z3.Function("atan_", R, R)
+
 POW_AXIOMS_TEXT = [
     "sqrt_(x) >= 0 and sqrt_(x)^2 = x            (x >= 0; instantiated at every use)",
     "pow_(x, 1/2) = sqrt_(x)",
@@ -497,6 +504,24 @@ def build_models():
     reg(np.sign, m_np_sign)
     reg(np.float64, m_np_float64)
     reg(warnings.warn, m_warn)
+    def _uf(fn_):
+        def m_(interp, args, kw):
+            (v,) = args
+            return SV(fn_(as_real(v)), "real")
+        return m_
+    for pyf, zf in ((math.exp, EXP), (math.log, LOG), (math.sin, SIN), (math.cos, COS), (math.tan, TAN),
+                    (math.asin, ASIN), (math.acos, ACOS), (math.atan, ATAN)):
+        reg(pyf, _uf(zf), trusted="uninterpreted transcendental function")
+    import operator as _op
+
+    def _binop_model(astop):
+        def m_(interp, args, kw):
+            return interp.binop(astop, args[0], args[1])
+        return m_
+    for pyf, astop in ((_op.add, ast.Add), (_op.sub, ast.Sub), (_op.mul, ast.Mult), (_op.truediv, ast.Div), (_op.pow, ast.Pow),
+                       (_op.floordiv, ast.FloorDiv), (_op.mod, ast.Mod)):
+        reg(pyf, _binop_model(astop))
+    reg(_op.neg, lambda interp, args, kw: interp.binop(ast.Sub, 0, args[0]))
     import time as _time
 
     def m_time(interp, args, kw):
